@@ -132,6 +132,8 @@ var c06Families = []c06Family{
 	{"long-comment", func(n int) string { return "; " + rep("c", n) + "\n" }},
 	{"many-comment-lines", func(n int) string { return "2024-01-01 x\n" + rep("    ; c\n", n) + "    a  1\n    b\n" }},
 	{"open-parens", func(n int) string { return "2024-01-01 x\n    " + rep("(", n) + "\n" }},
+	{"open-parens-virtual", func(n int) string { return "2024-01-01 x\n    " + rep("(", n) + "a:b)  1 USD\n    c\n" }},
+	{"open-brackets-virtual", func(n int) string { return "2024-01-01 x\n    " + rep("[", n) + "a:b]  1 USD\n    c\n" }},
 	{"open-brackets-header", func(n int) string { return "2024-01-01 " + rep("(", n) + "\n" }},
 	{"quotes", func(n int) string { return "2024-01-01 x\n    a  1 " + rep("\"", n) + "\n" }},
 	{"unterminated-quote", func(n int) string { return "2024-01-01 x\n    a  1 \"" + rep("q", n) + "\n    b\n" }},
